@@ -45,6 +45,7 @@ fn hmesh(oriented: bool, v: &[P3], idx: &[[u32; 3]]) -> String {
 }
 
 pub fn exec(func: &str, a: &mut Args) -> String {
+    if std::env::var("C17_DRY").is_ok() { return "dry".into(); }
     match func {
         "aabb_split" => { let x = aabb(a); let axis = a.u(); let bias = a.f(); let eps = a.f();
             match x.canonical_split(axis, bias, eps) {
@@ -90,6 +91,31 @@ pub fn exec(func: &str, a: &mut Args) -> String {
             match m.split(&pos, &Unit::new_unchecked(n), bias, eps) {
                 SplitResult::Negative => "neg".into(), SplitResult::Positive => "pos".into(),
                 SplitResult::Pair(l, r) => format!("pair {} {}", fmesh(&l), fmesh(&r)) } }
+        // The pinned `intersection_with_local_plane` never terminates (and allocates without bound) on sections that are
+        // open polylines, so the real call runs in a child process that is killed after a time budget -> `hang`.
+        "tm_section" if std::env::var("C17_CHILD").is_err() => {
+            use std::io::Write;
+            use std::process::{Command, Stdio};
+            let line = format!("C17 tm_section {}\n", a.t[a.i..].join(" "));
+            let mut child = Command::new(std::env::current_exe().expect("exe")).arg("exec").env("C17_CHILD", "1")
+                .stdin(Stdio::piped()).stdout(Stdio::piped()).stderr(Stdio::null()).spawn().expect("spawn");
+            child.stdin.take().unwrap().write_all(line.as_bytes()).expect("write");
+            let t0 = std::time::Instant::now();
+            loop {
+                match child.try_wait() {
+                    Ok(Some(_)) => break,
+                    Ok(None) => {
+                        if t0.elapsed().as_millis() > 150 { let _ = child.kill(); let _ = child.wait(); return "hang".into(); }
+                        std::thread::sleep(std::time::Duration::from_millis(2));
+                    }
+                    Err(_) => return "hang".into(),
+                }
+            }
+            let mut out = String::new();
+            use std::io::Read;
+            let _ = child.stdout.take().unwrap().read_to_string(&mut out);
+            match out.trim().split(" | ").nth(1) { Some(o) => o.to_string(), None => "hang".into() }
+        }
         "tm_section" => { let m = mesh(a); let n = d3::v(a); let bias = a.f(); let eps = a.f();
             match m.intersection_with_local_plane(&Unit::new_unchecked(n), bias, eps) {
                 IntersectResult::Negative => "neg".into(), IntersectResult::Positive => "pos".into(),
@@ -134,6 +160,74 @@ fn gen_poly(r: &mut Rng, lat: bool, s: f64) -> Vec<P3> {
     if r.bool() { pts.reverse(); }
     let k = r.below(pts.len() as u64) as usize; pts.rotate_left(k);
     pts
+}
+
+/// test meshes: (oriented?, vertices, indices, closed?)
+fn gen_mesh(r: &mut Rng, lat: bool) -> (bool, Vec<P3>, Vec<[u32; 3]>) {
+    let shift = if r.bool() { V3::zeros() } else { d3::gen_v(r, true, 1.0) };
+    let kind = r.below(10);
+    let (mut v, idx, closed): (Vec<P3>, Vec<[u32; 3]>, bool) = match kind {
+        0 | 1 => { let (v, i) = Cuboid::new(d3::gen_he(r, true)).to_trimesh(); (v, i, true) }
+        2 => { let (v, i) = Ball::new(r.pos_extent(lat)).to_trimesh(*r.pick(&[4, 6, 8]), *r.pick(&[4, 6])); (v, i, true) }
+        3 => { let (v, i) = Cylinder::new(r.pos_extent(lat), r.pos_extent(lat)).to_trimesh(*r.pick(&[4, 6, 8])); (v, i, true) }
+        4 => { // open: cuboid without its two first triangles
+            let (v, mut i) = Cuboid::new(d3::gen_he(r, true)).to_trimesh(); i.drain(0..2); (v, i, false) }
+        5 => { // open: k x k sheet spanned by two lattice vectors
+            let k = 2 + r.below(2) as usize;
+            let (u, w) = loop { let u = d3::gen_v(r, true, 1.0); let w = d3::gen_v(r, true, 1.0); if u.cross(&w).norm() > 1e-3 { break (u, w); } };
+            let mut v = Vec::new(); let mut idx = Vec::new();
+            for a in 0..=k { for b in 0..=k { v.push(P3::origin() + u * a as f64 + w * b as f64); } }
+            let id = |a: usize, b: usize| (a * (k + 1) + b) as u32;
+            for a in 0..k { for b in 0..k { idx.push([id(a, b), id(a + 1, b), id(a + 1, b + 1)]); idx.push([id(a, b), id(a + 1, b + 1), id(a, b + 1)]); } }
+            (v, idx, false) }
+        6 => { // closed, non-convex: L-shaped prism (tread face y = 1 between x = 1 and x = 2)
+            let poly = [(0.0, 0.0), (2.0, 0.0), (2.0, 1.0), (1.0, 1.0), (1.0, 2.0), (0.0, 2.0), (0.0, 1.0)];
+            let caps = [[0u32, 1, 2], [0, 2, 3], [0, 3, 6], [6, 3, 4], [6, 4, 5]];
+            let n = poly.len() as u32;
+            let mut v: Vec<P3> = poly.iter().map(|p| P3::new(p.0, p.1, 0.0)).collect();
+            v.extend(poly.iter().map(|p| P3::new(p.0, p.1, 1.0)));
+            let mut idx = Vec::new();
+            for t in caps.iter() { idx.push([t[0] + n, t[1] + n, t[2] + n]); idx.push([t[0], t[2], t[1]]); }
+            for k in 0..n { let p = k; let q = (k + 1) % n; idx.push([p, q, q + n]); idx.push([p, q + n, p + n]); }
+            (v, idx, true) }
+        7 | 8 => { // closed, non-convex: prism over a star-shaped polygon with deep notches (cap = fan around the kernel point)
+            let n = 6 + 2 * r.below(4) as u32;
+            let mut v: Vec<P3> = Vec::new();
+            for z in [0.0, 1.0] {
+                for k in 0..n {
+                    let (cx, cy) = [(1.0, 0.0), (0.75, 0.75), (0.0, 1.0), (-0.75, 0.75), (-1.0, 0.0), (-0.75, -0.75), (0.0, -1.0), (0.75, -0.75),
+                                    (1.0, 0.5), (0.5, 1.0), (-0.5, 1.0), (-1.0, 0.5), (-1.0, -0.5), (-0.5, -1.0), (0.5, -1.0), (1.0, -0.5)]
+                        [if n == 8 { k as usize } else { (k as usize * 16 / n as usize + if n > 8 { 8 } else { 0 }) % 16 }];
+                    let _ = (cx, cy);
+                    let ang = k as f64 / n as f64;
+                    // exact directions on the unit square boundary (lattice), alternating radii
+                    let t = ang * 8.0; let side = t.floor() as i64 % 8; let f = t - t.floor();
+                    let corner = |i: i64| -> (f64, f64) { [(1.0, 0.0), (1.0, 1.0), (0.0, 1.0), (-1.0, 1.0), (-1.0, 0.0), (-1.0, -1.0), (0.0, -1.0), (1.0, -1.0)][(i % 8) as usize] };
+                    let (a, b) = (corner(side), corner(side + 1));
+                    let dir = (a.0 + (b.0 - a.0) * f, a.1 + (b.1 - a.1) * f);
+                    let rad = if k % 2 == 0 { 4.0 } else { 0.5 };
+                    if z == 0.0 { v.push(P3::new(dir.0 * rad, dir.1 * rad, 0.0)); } else { let p = v[k as usize]; v.push(P3::new(p.x, p.y, 1.0)); }
+                }
+            }
+            let c0 = v.len() as u32; v.push(P3::new(0.0, 0.0, 0.0)); v.push(P3::new(0.0, 0.0, 1.0));
+            let mut idx = Vec::new();
+            for k in 0..n { let p = k; let q = (k + 1) % n;
+                idx.push([c0 + 1, p + n, q + n]); idx.push([c0, q, p]);
+                idx.push([p, q, q + n]); idx.push([p, q + n, p + n]); }
+            (v, idx, true) }
+        _ => { // two stacked cuboids sharing the plane y = 0 (each closed; together a non-manifold soup) -> never flagged oriented
+            let he = d3::gen_he(r, true);
+            let (v1, i1) = Cuboid::new(he).to_trimesh();
+            let mut v: Vec<P3> = v1.iter().map(|p| p + V3::new(0.0, he.y, 0.0)).collect();
+            let n = v.len() as u32;
+            v.extend(v1.iter().map(|p| p - V3::new(0.0, he.y, 0.0)));
+            let mut idx = i1.clone();
+            idx.extend(i1.iter().map(|t| [t[0] + n, t[1] + n, t[2] + n]));
+            (v, idx, false) }
+    };
+    for p in v.iter_mut() { *p += shift; }
+    let oriented = closed && r.below(3) != 0;
+    (oriented, v, idx)
 }
 
 pub fn gen(r: &mut Rng, thorough: bool) -> Vec<(String, String)> {
@@ -256,6 +350,34 @@ pub fn gen(r: &mut Rng, thorough: bool) -> Vec<(String, String)> {
             if r.bool() { core::mem::swap(&mut a2, &mut b2); }
             if r.below(8) == 0 { a2 = d2::gen_p(r, lat, 8.0); b2 = d2::gen_p(r, lat, 8.0); }
             v.push(("clip_seg_seg".into(), format!("{} {} {} {}", d2::hp(&a1), d2::hp(&b1), d2::hp(&a2), d2::hp(&b2))));
+        }
+
+        // ---- TriMesh split / plane section (oracle-only): planes through vertices, along edges, generic; bias sweep
+        if it % 2 == 0 || thorough {
+            let mlat = it % 4 == 0;
+            let (oriented, mv, mi) = gen_mesh(r, mlat);
+            let nlat = mlat || r.bool(); let nrm = unit3(r, nlat);
+            let ds: Vec<f64> = mv.iter().map(|p| nrm.dot(&p.coords)).collect();
+            let (lo, hi) = ds.iter().fold((f64::MAX, -f64::MAX), |(a, b), d| (a.min(*d), b.max(*d)));
+            let k = r.below(mv.len() as u64) as usize;
+            let t = mi[r.below(mi.len() as u64) as usize];
+            for _ in 0..2 {
+                let eps = *r.pick(&[0.0, 0.0, 1e-9, 1e-6, 1e-3, 0.125, 0.25]);
+                let bias = match r.below(6) {
+                    0 => ds[k],                                             // through a vertex
+                    1 => (ds[t[0] as usize] + ds[t[1] as usize]) * 0.5,    // through an edge mid-point
+                    2 => ds[k] + eps, 3 => ds[k] - eps * 0.5,
+                    4 => lo + (hi - lo) * (r.range(-1, 9) as f64) / 8.0,  // sweep
+                    _ => r.uniform(lo - 0.1, hi + 0.1) };
+                let args = format!("{} {} {} {}", hmesh(oriented, &mv, &mi), d3::hv(&nrm), hx(bias), hx(eps));
+                v.push(("tm_split".into(), args.clone()));
+                v.push(("tm_section".into(), args));
+            }
+            if it % 8 == 0 {
+                let pos = d3::gen_iso(r, true, 2.0);
+                let bias = r.lattice(8, 2);
+                v.push(("tm_split_pos".into(), format!("{} {} {} {} {}", hmesh(oriented, &mv, &mi), d3::hiso(&pos), d3::hv(&nrm), hx(bias), hx(1e-6))));
+            }
         }
     }
     v
